@@ -1500,6 +1500,10 @@ func (d *Data) ServeHTTP(uuid dvid.UUID, ctx *datastore.VersionedCtx, w http.Res
 			server.BadRequest(w, r, fmt.Sprintf("Error reading batchsize query string: %v", err))
 			return
 		}
+		if batchsize <= 0 {
+			server.BadRequest(w, r, fmt.Sprintf("batchsize must be a positive number of blocks, got %d", batchsize))
+			return
+		}
 
 		var jsonBytes []byte
 		optimizedStr := queryStrings.Get("optimized")
